@@ -257,4 +257,30 @@ def peerOps (w : World) (onB : Bool) : List WOp → List Op
   | [] => []
   | op :: ops => peerOp w onB op ++ peerOps (w.step op).1 onB ops
 
+/-! ### the id counter set from outside (`jump`)
+
+`id_alloc_` after any number of requests that were issued and completed in between — and, by
+going backwards, after the counter has wrapped: a `jump v` followed by `request` reuses id `v + 1`
+whatever is still pending or still sits in the timeout ring.  (Test-only in the harness; the
+theorems over `runJ` therefore hold for *every* allocation policy of positive `int` ids.) -/
+
+inductive JOp where
+  | op (o : Op)
+  | jump (v : Nat)
+deriving Repr, DecidableEq
+
+def stepJ (s : Rpc) : JOp → Rpc × List REv
+  | .op o => step s o
+  | .jump v => (s.jump v, [])
+
+def runJ (s : Rpc) : List JOp → Rpc × List REv
+  | [] => (s, [])
+  | op :: ops =>
+    let r1 := stepJ s op
+    let r2 := runJ r1.1 ops
+    (r2.1, r1.2 ++ r2.2)
+
+/-- the counter and every pending id are positive C++ `int`s -/
+def IdInv (s : Rpc) : Prop := s.idAlloc ≤ kIntMax ∧ ∀ e ∈ s.pending, 1 ≤ e.1 ∧ e.1 ≤ kIntMax
+
 end Tbox.C14
